@@ -677,7 +677,50 @@ def subconst(r):
     return s
 
 
-GENS = {"scancond": scancond, "subconst": subconst, "gvnif": gvnif, "ifclear": ifclear, "framealias": framealias, "runwalk": runwalk, "scanclear": scanclear, "stridescan": stridescan, "emptyspin": emptyspin, "deepnest": deepnest, "mulcounter": mulcounter, "tailloop": tailloop, "loopio": loopio, "shiftif": shiftif, "ifnest": ifnest, "uniform": uniform, "nestuse": nestuse, "longrun": longrun, "iopressure": iopressure, "squares": squares, "macro": macro, "pressure": pressure, "affine": affine, "bigconst": bigconst,
+def jmpsweep(r):
+    """loops (with an output, so that they survive optimisation, iterating at least twice) whose body is a
+    chain of k small independent instructions, j of them in a one-byte-longer encoding: over the population
+    the machine-code distance between a loop head and its closing branch takes every value in a wide range
+    around the reach of a short jump (126/127/128 bytes)"""
+    k = r.randint(14, 24) if r.below(4) else r.randint(3, 30)
+    j = r.randint(0, k)
+    fw, bw = ('>', '<') if r.below(3) else ('<', '>')
+    body = ''.join(fw + (r.choice(['++', '--']) if i < j else r.choice(['+', '-'])) for i in range(k)) + bw * k
+    if r.below(3) == 0:
+        body = body + r.choice(['>+<', '<->', '+-+', '>>+<<'])
+    return r.choice(['++', '+++', ',']) + '[' + r.choice(['.', '', '.']) + body + r.choice(['.-', '-.', '-']) + ']' + r.choice(['.', '>.', '<.>.', '+.'])
+
+
+def evenstep(r):
+    """loops that change their own condition cell by an even constant per iteration (2, 4, 6, -2, ...) starting
+    from an input or from a value computed by a loop the optimiser cannot fold: they terminate exactly when
+    the start value is a suitable multiple (else they run through the whole cycle of the cell width or for
+    ever), and their effect on another cell is observed by a later loop or output"""
+    step = r.choice(['--', '++', '----', '++++', '------', '--', '++'])
+    src = r.choice([',', ',', ',+', ',[->+<]>', '+++[->++<]>'])
+    eff = r.choice(['>+<', '>++<', '>-<', '<+>', '>+>+<<'])
+    s = src + '[' + step + eff + ']'
+    s += r.choice(['>[.]', '>.', '>[.-]', '>[-.]', '<.>>.', '>[>+<-]>.'])
+    return s
+
+
+def ifedge(r):
+    """`if`s whose block never touches the condition cell, the condition being the outermost cell the program
+    ever names: a block that ends in an infinite loop (`[<[-]+[]]`), or two loops that close together after a
+    pointer move (`[<[.,<]]`), inside an input-driven loop; both directions and several distances"""
+    fw, bw = ('>', '<') if r.below(2) else ('<', '>')
+    a = r.randint(2, 4)
+    if r.below(2):
+        b = r.randint(1, a - 1)
+        blk = '[' + bw * b + r.choice(['[-]+[]', '[-]+[.]', '[-]-[]', '+[]']) + ']'
+        s = ',[' + fw * a + blk + bw * a + ',]'
+    else:
+        blk = '[' + bw + '[' + r.choice(['.,', ',', '.-', '-']) + bw + ']]'
+        s = ',[' + fw * a + blk + bw * (a - 2) + ',]'
+    return s + r.choice(['', '.', '+.'])
+
+
+GENS = {"evenstep": evenstep, "ifedge": ifedge, "jmpsweep": jmpsweep, "scancond": scancond, "subconst": subconst, "gvnif": gvnif, "ifclear": ifclear, "framealias": framealias, "runwalk": runwalk, "scanclear": scanclear, "stridescan": stridescan, "emptyspin": emptyspin, "deepnest": deepnest, "mulcounter": mulcounter, "tailloop": tailloop, "loopio": loopio, "shiftif": shiftif, "ifnest": ifnest, "uniform": uniform, "nestuse": nestuse, "longrun": longrun, "iopressure": iopressure, "squares": squares, "macro": macro, "pressure": pressure, "affine": affine, "bigconst": bigconst,
         "roam": roam, "diverge": diverge}
 
 
